@@ -528,6 +528,14 @@ def _gen_pass_one(rng):
         )
         if pure_elsewhere:
             consts[o][r] = rng.choice([1, 2, 3])
+    base_kind = kind
+    if rng.random() < 0.12:
+        # an operand dimension pinned to a non-zero constant: a result that depends on no iteration dimension at all
+        o = rng.randrange(len(pats))
+        r = rng.randrange(len(pats[o]) + 1)
+        pats[o].insert(r, [0] * n)
+        consts[o].insert(r, rng.choice([1, 2, 3, 5]))
+        kind = kind + "+pinned-dim"
     shapes = [_shape_of(bounds, p, k) for p, k in zip(pats, consts)]
     tys = [f"memref<{'x'.join(map(str, sh))}xi{b}>" for sh, b in zip(shapes, bits)]
     args = ", ".join(f"%a{i} : {t}" for i, t in enumerate(tys))
@@ -587,7 +595,7 @@ def _gen_pass_one(rng):
         f"  ^bb0({streams}):\n{body}"
         f"  }}) : ({', '.join(tys)}) -> ()\n  func.return\n}}\n"
     )
-    table = {"matmul": "gemmx_matmul", "matmul_t": "gemmx_matmul", "bmm": "gemmx_matmul", "conv": "gemmx_matmul", "gemm_add": "gemmx_gemm", "rescale": "gemmx_rescale", "rescale1d": "gemmx_rescale"}.get(kind, "snax_alu")
+    table = {"matmul": "gemmx_matmul", "matmul_t": "gemmx_matmul", "bmm": "gemmx_matmul", "conv": "gemmx_matmul", "gemm_add": "gemmx_gemm", "rescale": "gemmx_rescale", "rescale1d": "gemmx_rescale"}.get(base_kind, "snax_alu")
     return {
         "form": "pass",
         "kind": kind,
